@@ -53,6 +53,9 @@ def gen_inv_schema(rng, name, avoid=()):
             ents.append(M.Entity('x%d' % ri, attrs=[M.Attr('x%d_e' % ri, M.ENT(rng.choice(['t%d' % x for x in range(n_t)])), True),
                                                         M.Attr('x%d_v' % ri, M.INT())]))
             ents.append(M.Entity('r%dm' % ri, supers=['x%d' % ri, 'r%d' % ri], attrs=[M.Attr('r%dm_v' % ri, M.INT())]))
+            if rng.random() < .6:
+                # ... and one in which it is the first of two supertypes (each supertype must know this subtype)
+                ents.append(M.Entity('r%dn' % ri, supers=['r%d' % ri, 'x%d' % ri], attrs=[M.Attr('r%dn_v' % ri, M.INT())]))
     s = M.Schema(name, [], ents)
     # inverse declarations on the target named by the inverted attribute
     for e in list(ents):
